@@ -5,11 +5,17 @@ and non-vacuity examples live here; helper lemmas are in `Golib/Proof/C16*.lean`
 Abstraction: `mem ws n` (bit `n % 64` of word `n / 64`, `false` beyond the array) and
 `members ws` (the ascending member list); `card ws = (members ws).length`.
 All theorems hold for word arrays of every length, every `n : Nat` and every history.
-In the functional model the *other* operand of a bulk operation is a value and is
-unchanged by construction; that the Go code does not write through `other.set` is part
-of the tie (the harness re-reads the other operand after every bulk operation).
+
+Two machines: the by-value specification machine (`C16Spec.lean`, registers hold word lists)
+about which the per-operation theorems speak, and the ONE-MEMORY machine (`C16Heap.lean`:
+one heap, registers are slice headers `(base, len, cap)`, `other` operands are header copies,
+`append` writes in place within capacity) which the oracle executes and which is tied to the
+Go code on every run.  "The other bulk operand is untouched" and "Clone is independent of its
+source" are theorems about the one-memory machine (`c16_noninterference`,
+`c16_clone_independent`), where sharing would be visible; `c16_heap_refines` transports the
+per-operation theorems to it.
 -/
-import Golib.Proof.C16Refine
+import Golib.Proof.C16HeapSim
 
 namespace Golib.C16
 
@@ -125,6 +131,81 @@ theorem c16_dsz_same (d : DBits) (n : Nat) :
   ⟨DBits.add_eq d n, DBits.remove_eq d n, DBits.contains_eq d n, DBits.grow_eq d n,
    DBits.len_eq d, DBits.cap_eq d⟩
 
+/-! ### the one-memory machine -/
+
+/-- **The one-memory machine refines the by-value machine.**  For every growth function of
+`append`: (1) from every state satisfying the invariant (headers inside the heap, backing
+arrays of different registers pairwise disjoint) every operation — element operations, bulk
+operations with any other register INCLUDING the receiver itself, `Clone`, iterators — gives
+the same verdict (no panic unless the by-value machine panics, which it never does), prints the
+same line and leaves, read through the slice headers, exactly the by-value successor state,
+and the invariant holds again; (2) hence every reachable state satisfies the invariant;
+(3) hence whole runs print the same lines, starting from zero-valued registers. -/
+theorem c16_heap_refines (grow : Nat → Nat → Nat) (kinds : List Kind) :
+    (∀ s op, HInv s → Sim op.target s (hstep grow s op) (step s.abs op)) ∧
+    (∀ s, HReach grow kinds s → HInv s) ∧
+    (∀ ls, hrunOps grow (some (HSt.init kinds)) ls = runOps (some (HSt.init kinds).abs) ls) := by
+  refine ⟨fun s op hi => hstep_sim grow s op hi, ?_, fun ls => hrunOps_eq grow ls _ (hinv_init kinds)⟩
+  intro s hr
+  induction hr with
+  | init => exact hinv_init kinds
+  | step s s' op out _ hs ih =>
+    have := hstep_sim grow s op ih
+    rw [hs] at this
+    cases h2 : step s.abs op <;> rw [h2] at this <;> simp only [Sim] at this
+    exact this.2.2.1
+
+/-- **Non-interference** ("the other operand is left untouched"): in every reachable state,
+an operation changes at most its target register (`add/remove/grow r`: `r`; `clone d s`: `d`;
+`diff/intersect/merge a b`: `a`).  Every OTHER register — in particular the other operand `b`
+of a bulk operation and the source of a `Clone` — keeps its slice header and its cached length
+and reads the same words from the shared memory afterwards. -/
+theorem c16_noninterference (grow : Nat → Nat → Nat) (kinds : List Kind) (s s' : HSt) (op : Op)
+    (out : String) (hr : HReach grow kinds s) (hs : hstep grow s op = .ok s' out) :
+    ∀ (r : Nat) (o : HObj), op.target ≠ some r → s.regs[r]? = some o →
+      s'.regs[r]? = some o ∧ o.hdr.view s'.heap = o.hdr.view s.heap := by
+  have hi := (c16_heap_refines grow kinds).2.1 s hr
+  have := hstep_sim grow s op hi
+  rw [hs] at this
+  cases h2 : step s.abs op <;> rw [h2] at this <;> simp only [Sim] at this
+  exact this.2.2.2
+
+/-- **Clone is independent of its source**: `*d = s.Clone()` gives `d` the words of `s` in a
+backing array disjoint from every other register's; whatever is done to `d` afterwards leaves
+`s` as it was, and whatever is done to `s` leaves `d` as it was. -/
+theorem c16_clone_independent (grow : Nat → Nat → Nat) (kinds : List Kind) (s s1 s2 : HSt)
+    (d src : Nat) (od os : HObj) (op : Op) (out1 out2 : String) (hr : HReach grow kinds s)
+    (hne : d ≠ src) (hd : s.regs[d]? = some od) (hsrc : s.regs[src]? = some os)
+    (h1 : hstep grow s (.clone d src) = .ok s1 out1) (h2 : hstep grow s1 op = .ok s2 out2) :
+    (∃ od1, s1.regs[d]? = some od1 ∧ od1.hdr.view s1.heap = os.hdr.view s.heap ∧
+      Disj od1.hdr os.hdr ∧
+      (op.target = some src → s2.regs[d]? = some od1 ∧ od1.hdr.view s2.heap = od1.hdr.view s1.heap)) ∧
+    (op.target = some d → s2.regs[src]? = some os ∧ os.hdr.view s2.heap = os.hdr.view s.heap) := by
+  have hr1 : HReach grow kinds s1 := .step s s1 _ _ hr h1
+  have hi1 := (c16_heap_refines grow kinds).2.1 s1 hr1
+  have hsrc1 := c16_noninterference grow kinds s s1 _ _ hr h1 src os (by simp [Op.target, hne]) hsrc
+  have hlen : d < s.regs.length := by
+    rcases Nat.lt_or_ge d s.regs.length with h | h
+    · exact h
+    · rw [List.getElem?_eq_none h] at hd; cases hd
+  -- what `clone` did to register d
+  simp only [hstep, hd, hsrc] at h1
+  split at h1
+  · rename_i hk
+    simp only [HRes.ok.injEq] at h1
+    obtain ⟨rfl, _⟩ := h1
+    have hi := (c16_heap_refines grow kinds).2.1 s hr
+    have hc := hClone_spec s.heap os.hdr (hi.wf src os hsrc)
+    refine ⟨⟨{ od with hdr := (hClone s.heap os.hdr).2 }, by simp [hlen], ?_, ?_, ?_⟩, ?_⟩
+    · simpa [Bitmap.clone] using hc.1
+    · exact hi1.disj d src _ os hne (by simp [hlen]) hsrc1.1
+    · intro ht
+      exact c16_noninterference grow kinds _ s2 op out2 hr1 h2 d _ (by simp [ht, Ne.symm hne]) (by simp [hlen])
+    · intro ht
+      have := c16_noninterference grow kinds _ s2 op out2 hr1 h2 src os (by simp [ht, hne]) hsrc1.1
+      exact ⟨this.1, this.2.trans hsrc1.2⟩
+  · cases h1
+
 /-! ### non-vacuity -/
 
 /-- a three-word set with members on both sides of the word boundaries 63|64 and 127|128 -/
@@ -138,6 +219,17 @@ example : (⟨4, ⟨exWords⟩⟩ : Bits).Inv := by
 example : mem (mergeWords [5#64] exWords) 128 = true ∧ mem (diffWords exWords [0#64, 1#64]) 64 = false ∧
     mem (intersectWords exWords [1#64 <<< 63]) 65 = false := by decide
 example : Bits.Reachable (Bits.merge Bits.empty ⟨exWords⟩) := .step _ _ .init (.merge _ _)
+/-- a run of the one-memory machine in which register 0 is re-allocated (Merge appends beyond
+capacity), register 2 becomes a clone, and `x.Diff(x)` runs on a shared header copy -/
+example : (hrunList goGrow8 (HSt.init [.bits, .bits, .bitmap])
+    [.add 1 70, .add 0 3, .merge 0 1, .clone 2 0, .add 2 200, .contains 0 200, .contains 2 70,
+     .diff 0 0, .contains 0 3, .contains 2 3]).1 =
+    ["true", "true", "ok", "ok", "true", "false", "true", "ok", "false", "true"] := by
+  decide
+/-- …and a reachable state with a non-empty heap in which two registers are live -/
+example : ∃ s, HReach goGrow8 [.bits, .bitmap] s ∧ s.heap.length = 3 ∧
+    s.regs.map (·.hdr) = [⟨0, 1, 1⟩, ⟨1, 2, 2⟩] :=
+  ⟨_, .step _ _ (.add 1 64) _ (.step _ _ (.add 0 1) _ .init rfl) rfl, by decide, by decide⟩
 /-- a resumed iterator (already delivered 63, standing at word 0 bit 63) -/
 example : Iter.drain exWords 10 ⟨0, 63, true⟩ = [64, 65, 128] := by decide
 
